@@ -92,6 +92,8 @@ def build_proofs(prop, log):
 
 # ------------------------------------------------------------------------------------------------
 # correspondence
+SIX_CFGS = ["back", "back_fct", "back11", "mp11", "mp11_fpa", "mp11_fct"]
+
 def machines_for(profile, seed, n):
     """deterministic machine set of a profile; machines are shared by all properties using the profile"""
     feat = gen.PROFILES[profile]
@@ -369,6 +371,11 @@ def run_check(prop, spec, tier, replay=None):
             opss = [spec["ops"](g, md, nops) if spec.get("ops") else g.gen_ops(md, nops) for _ in range(spec.get("nlists", 3))]
             for c in spec["cfgs"]:
                 cases.append((name, md, c, opss))
+        for prof, nq, nt in spec.get("extra", []):
+            for name, g, md in machines_for(prof, seed, nq if tier == "quick" else nt):
+                opss = [g.gen_ops(md, nops) for _ in range(2)]
+                for c in spec.get("extra_cfgs", SIX_CFGS):
+                    cases.append((name, md, c, opss))
         for nm in spec.get("corpus", []):
             p = os.path.join(VERIF, "corpus", nm + ".json")
             d = json.load(open(p))
